@@ -421,6 +421,20 @@ def handle (j : J) : J :=
       let (_, outs) := run c [] ops
       .obj [("outs", .arr (outs.map outToJ))]
     | _, _ => bad "store"
+  | some "mounts" =>
+    let mopOf (o : J) : Option MOp := do pure ((← o.getNat? "mt") == 1, ← opOfJ o)
+    match j.getStr? "cfg", (j.getArr? "ops").bind (·.mapM mopOf) with
+    | some cfg, some ops =>
+      let c := if cfg == "pinned" then FsCfg.pinned else FsCfg.patched
+      .obj [("outs", .arr ((mrun c ([], []) ops).2.map fun o => outToJ o.2))]
+    | _, _ => bad "mounts"
+  | some "fnload" =>
+    let fnOf (o : J) : Option FnJ := do
+      pure ⟨← o.getNat? "code", ← (← o.getArr? "defaults").mapM (·.asInt?)⟩
+    match (j.getArr? "fns").bind (·.mapM fnOf) with
+    | some fns =>
+      .obj [("loaded", .arr ((loadAll fnLoadMemo [] fns).2.map fun f => .arr (f.defaults.map .int)))]
+    | none => bad "fnload"
   | some "memseq" =>
     let opOf (o : J) : Option SOp := do
       match ← o.getStr? "k" with
@@ -440,7 +454,9 @@ def handle (j : J) : J :=
     let name : FnOrigin → String
       | .moduleDef => "module-def" | .moduleLambda => "module-lambda" | .classBodyDef => "class-body-def"
       | .classBodyLambda => "class-body-lambda" | .nestedDef => "nested-def" | .nestedLambda => "nested-lambda"
-    .obj (FnOrigin.all.map fun o => (name o, .bool (writtenByCode fnTests o)))
+    let m : MethodRef := ⟨"Maker".toList, "SubMaker".toList, "make".toList⟩
+    .obj ((FnOrigin.all.map fun o => (name o, .bool (writtenByCode fnTests o))) ++
+          [("inherited_method_keeps_class", .bool (loadMethod m (writeMethod fnMethodNamesBound m) == m))])
   | some "geno_env" =>
     let kindJ : Kind → J
       | .any => .str "any" | .bool => .str "bool" | .int => .str "int" | .str => .str "str"
@@ -498,7 +514,8 @@ def handle (j : J) : J :=
   | some "hstore" =>
     match j.getStr? "cfg", (j.getArr? "ops").bind (·.mapM uopOfJ) with
     | some cfg, some ops =>
-      let c := if cfg == "perhandle" then HCfg.fixed else HCfg.head
+      let c := if cfg == "perhandle" then HCfg.fixed
+               else if cfg == "perhandle-append" then HCfg.fixedAppend else HCfg.head
       .obj [("outs", .arr (runUser c HSt.empty [] ops))]
     | _, _ => bad "hstore"
   | some "typed_dict" =>
